@@ -356,7 +356,7 @@ fn underflow_free(seg: &ErasedSegment, tpl: &str) -> bool {
 }
 
 fn placeholders(tf: &TemplatedFile) -> Vec<String> {
-    tf.verif_raw_sliced().into_iter().filter(|(_, t, _)| t == "templated").map(|(i, _, l)| tf.source_str[i..i + l].to_string()).collect()
+    tf.verif_raw_sliced_idx().into_iter().filter(|(_, t, _)| t == "templated").map(|(i, _, l)| tf.source_str[i..i + l].to_string()).collect()
 }
 
 /// Generator restriction for templated inputs: every placeholder is its own token (separators on
@@ -562,7 +562,7 @@ fn run_file(ls: &mut Linters, it: &Item, out: &mut Buf) {
         out.count("tree_case_skipped_large", 1);
         return;
     }
-    let raws: Vec<(usize, bool)> = tf.verif_raw_sliced().into_iter().map(|(i, t, _)| (i, t == "literal")).collect();
+    let raws: Vec<(usize, bool)> = tf.verif_raw_sliced_idx().into_iter().map(|(i, t, _)| (i, t == "literal")).collect();
     let args = g_tuple(&[
         g_text(&src),
         if tpl == src { "None".to_string() } else { g_opt(Some(g_text(&tpl))) },
